@@ -14,7 +14,10 @@ import omen_gen
 ID = "C10"
 TRUSTED = ["CPython dict/list semantics of the loaded grammar (exercised: the loaded tables are compared with "
            "OmenSpec.ip_at/cp_at/ln_at on every generated directory)",
-           "harness/omen_gen.brute_levels (independent enumerator used as oracle)"]
+           "harness/omen_gen.brute_levels (independent enumerator used as oracle)",
+           "translator tie: harness/translate_omen_gen.py (the reading it gives its accepted Python subset: objects as "
+           "records, the one shared Optimizer threaded, list value semantics under the aliasing rules it enforces) and "
+           "the runtime coq/theories/OmenGenRt.v (Python ints, subscripts, dicts, exceptions, fuel)"]
 ASSUMES = ["cache_ok c: every value in the memo table is the first completion for its key -- true of the empty table and "
            "preserved by every call (C10_fill_is_first, C10_exact return a sound table), so it holds for every history",
            "mc_starts = Some _ (the constructor does not raise): implied by first_below_max G, i.e. some IP and some length "
@@ -301,7 +304,9 @@ def run(ctx):
         src.append("].")
         src.append("Eval vm_compute in (ofailing check_case cases).")
         shards.append(("s%04d" % k, "\n".join(src)))
-    corr = []
+    # translator tie: the generated Optimizer / GuessStructure / MarkovCracker code = the model (names the broken lemma)
+    import omen_gen_gen_tie
+    corr = list(omen_gen_gen_tie.obligations())
     for name, idx, log in common.run_case_shards("C10", shards):
         k = int(name[1:])
         if idx is None:
